@@ -12,7 +12,7 @@ AUDIT_INPUT_FILES = True   # after every case the driver verifies that the synth
 PROPERTY = "C09"
 LEVEL = "exploration"
 CLAIM = {
-    "text": "Exploration by runtime monitoring: (a) compute_dmdelays/Header.get_dmdelays are compared with the float64 law 4.148808e3*DM*(f^-2-fref^-2)/tsamp on seeded random bands (|delay-v| <= 0.5 + float32 error bound, zero at the reference channel, exact antisymmetry in DM, monotone in frequency); (b) on the same random block and DM every entry point - FilterbankBlock.dedisperse (+only_valid_samples), Filterbank.dedisperse, read_dedisp_block, dmt_transform (+only_valid_samples) - is compared element by element with x[c, t+delay_c] (circular or windowed as each declares), using the delays the library itself reports for the DM it reports, and every index the definition needs over the declared length must exist; (c) a pulse synthesised with the reported delays must collapse to one sample in every path, and dedisperse(DM) then dedisperse(-DM) must be the identity. DM grids include steps finer than one sample of delay, and the same block object is dedispersed against a second reference frequency; input files are re-hashed after every case. Rounds 7-8 added: interior sub-ranges streamed in several reads.",
+    "text": "Exploration by runtime monitoring: (a) compute_dmdelays/Header.get_dmdelays are compared with the float64 law 4.148808e3*DM*(f^-2-fref^-2)/tsamp on seeded random bands (|delay-v| <= 0.5 + float32 error bound, zero at the reference channel, exact antisymmetry in DM, monotone in frequency); (b) on the same random block and DM every entry point - FilterbankBlock.dedisperse (+only_valid_samples), Filterbank.dedisperse, read_dedisp_block, dmt_transform (+only_valid_samples) - is compared element by element with x[c, t+delay_c] (circular or windowed as each declares), using the delays the library itself reports for the DM it reports, and every index the definition needs over the declared length must exist; (c) a pulse synthesised with the reported delays must collapse to one sample in every path, and dedisperse(DM) then dedisperse(-DM) must be the identity. DM grids include steps finer than one sample of delay, and the same block object is dedispersed against a second reference frequency; input files are re-hashed after every case. Rounds 7-8 added: interior sub-ranges streamed in several reads. Round 9 added: a reference at 1e25 MHz (delays relative to infinite frequency) and a channel whose samples sum to zero in the DM-time transform.",
     "design_ref": "DESIGN.md section 3 (C09)",
     "note": "Trusted: numpy float64 evaluation of the law, numpy fancy indexing as the definition. tol = 16*2^-24*4.148808e3*|DM|/tsamp*fmin^-2 (float32 evaluation error bound). Frequencies used by the oracle are the library's float32 channel centres.",
     "technique": "runtime monitoring: float64 law oracle + cross-path differential against the index formula on identical inputs",
